@@ -310,6 +310,9 @@ func (env *sysEnv) newExchange(c *sClient) *exchange {
 // ---------------------------------------------------------------------------
 // scripted backend
 
+// wsBackendHook, when set, handles Upgrade requests at the scripted backends.
+var wsBackendHook func(conn net.Conn, br *bufio.Reader, req *http.Request)
+
 func (b *sBackend) acceptLoop() {
 	for {
 		c, err := b.ln.Accept()
@@ -338,6 +341,10 @@ func (b *sBackend) serve(c net.Conn) {
 	for {
 		req, err := http.ReadRequest(br)
 		if err != nil {
+			return
+		}
+		if req.Header.Get("Upgrade") != "" && wsBackendHook != nil {
+			wsBackendHook(c, br, req)
 			return
 		}
 		tok, _ := strconv.Atoi(req.Header.Get("X-Sim-Token"))
@@ -728,7 +735,11 @@ type driveOpts struct {
 
 // drive runs the world until every queued exchange is done (or budgets end).
 // Returns false if some exchange did not finish.
-func (env *sysEnv) drive(o driveOpts) bool {
+func (env *sysEnv) drive(o driveOpts) bool { return env.driveUntil(o, nil) }
+
+// driveUntil is drive with an additional completion condition: the world keeps
+// running until finished() is true (and every queued exchange is done).
+func (env *sysEnv) driveUntil(o driveOpts, finished func() bool) bool {
 	x := env.x
 	c := x.C.Sub("net")
 	if o.maxSteps == 0 {
@@ -752,6 +763,12 @@ func (env *sysEnv) drive(o driveOpts) bool {
 			if cl.busy || cl.next < len(cl.queue) {
 				return false
 			}
+		}
+		if finished != nil {
+			env.mu.Unlock()
+			f := finished()
+			env.mu.Lock()
+			return f
 		}
 		return true
 	}
